@@ -24,6 +24,9 @@ func (g *whichOneofGen) genComment() {
 
 func (g *whichOneofGen) genFunc() {
 	g.P("func (x *", g.typeName, ") WhichOneof(d ", protoreflectPkg.Ident("OneofDescriptor"), ") ", protoreflectPkg.Ident("FieldDescriptor"), " {")
+	g.P("if x == nil {")
+	g.P("x = new(", g.typeName, ") // a nil message reads as an empty one")
+	g.P("}")
 	g.P("switch d.FullName() {")
 	for _, oneof := range g.message.Oneofs {
 		g.P("case \"", oneof.Desc.FullName(), "\": ")
